@@ -73,7 +73,9 @@ def job(j: dict) -> dict:
         names, P = [], []
         for fi, toks in enumerate(proj, 1):
             src, abstract = render(j["lang"], toks, fi, j["salt"] + k)
-            n = f"file{fi}.{ext}"
+            # in every other TypeScript project the last file is JavaScript (same statements): a run is the same run in
+            # .ts and in .js
+            n = f"file{fi}." + ("js" if ext == "ts" and fi == len(proj) and fi > 1 and (j["salt"] + k) % 2 else ext)
             (d / n).write_text(src)
             names.append(n)
             P.append(abstract)
